@@ -26,6 +26,7 @@ def parents(root: ast.AST) -> Dict[ast.AST, ast.AST]:
 
 def ancestors(root: ast.AST, node: ast.AST):
     pm = parents(root)
+    node = getattr(node, "_pgv_origin", node)  # a try standing for `with contextlib.suppress(...)`
     cur = pm.get(node)
     while cur is not None:
         yield cur
@@ -63,6 +64,12 @@ def enclosing_tries(root: ast.AST, node: ast.AST) -> List[ast.Try]:
             break
         if isinstance(anc, ast.Try) and field == "body":
             out.append(anc)
+        if isinstance(anc, (ast.With, ast.AsyncWith)) and field == "body":
+            from .paths import suppress_try
+
+            st_ = suppress_try(anc)
+            if st_ is not None:
+                out.append(st_)
     return out
 
 
